@@ -165,8 +165,12 @@ def compose(parts, theme='composed'):
 def parse_lines(lines, theme=None):
     out = []
     for line in lines:
-        o, nls = json.loads(line)
-        out.append(Sentence(o, nls, theme))
+        rec = json.loads(line)
+        s = Sentence(rec[0], rec[1], theme)
+        # what an implementation model (Layer 2, e.g. SlashImpl.tla) says
+        # about this sentence, if the theme was run with one
+        s.model = rec[2] if len(rec) > 2 else None
+        out.append(s)
     return out
 
 
